@@ -33,7 +33,8 @@ def gen_violation(rnd, in_msg):
         return k, E(0, b"x", fin=rnd.choice([0, 1]))
     if k == "data_in_msg":
         if not in_msg:
-            return k, E(rnd.choice([1, 2]), b"a", fin=0) + E(rnd.choice([1, 2]), b"b", fin=rnd.choice([0, 1]))
+            # the open message's first fragment may be empty (it is still an open message)
+            return k, E(rnd.choice([1, 2]), rnd.choice([b"a", b"a", b""]), fin=0) + E(rnd.choice([1, 2]), b"b", fin=rnd.choice([0, 1]))
         return k, E(rnd.choice([1, 2]), b"b", fin=rnd.choice([0, 1]))
     if k == "len63":
         op = 0 if in_msg else 2
@@ -73,7 +74,7 @@ def make_scenario(rnd):
     in_msg = False
     if rnd.random() < 0.3:
         # leave a fragmented binary message open before the violation
-        frames.append((2, 0, b"open", None))
+        frames.append((2, 0, rnd.choice([b"open", b"open", b""]), None))
         in_msg = True
     # a text message open before the violation only when the violation is not itself about utf8 (it would be ambiguous)
     gv = gen_violation(rnd, in_msg)
